@@ -14,7 +14,10 @@ package main
 //	fe,a           forEachStored (path=type pairs)        pn        panic
 //
 // VAL: I<int> S<ascii> B0|B1 A<i.i.i> ([Int]) Y<i.i.i> ([AnyStruct] holding Ints) s<int> (C.S) t<int> (C.S2)
-// r<int> (C.R) q<int> (C.R2).  T: Int String Bool Integer ArrInt ArrAny S S2 I R R2 RI AnyStruct AnyResource.
+// r<int> (C.R) q<int> (C.R2); O<VAL> = VAL wrapped in an optional (stored static type <type of VAL>?: OI5 is
+// an Int?, OOI5 an Int??, Or6 a @C.R?); N = nil (stored static type Never?).
+// T: Int String Bool Integer ArrInt ArrAny S S2 I R R2 RI AnyStruct AnyResource, each optionally followed by one
+// or more `?` (Int? S? R? RI? AnyStruct? AnyResource? Int?? ...).
 // Every operation logs exactly one line; the observation of a transaction is
 // `ok[log;log;...]` or `err:<kind>[logs before the abort]`.
 
@@ -48,42 +51,74 @@ access(all) contract C {
         access(all) fun get(): Int { return self.x } }
     access(all) fun mkR(_ x: Int): @R { return <- create R(x: x) }
     access(all) fun mkR2(_ x: Int): @R2 { return <- create R2(x: x) }
-    access(all) fun eat(_ r: @AnyResource?): String {
-        if let x <- r {
-            if x.isInstance(Type<@R>()) {
-                let y <- x as! @R
-                let s = "C.R(x: ".concat(y.x.toString()).concat(")")
-                destroy y
-                return s
-            }
-            if x.isInstance(Type<@R2>()) {
-                let y <- x as! @R2
-                let s = "C.R2(x: ".concat(y.x.toString()).concat(")")
-                destroy y
-                return s
-            }
-            destroy x
-            return "?"
+    access(all) fun mkOR(_ x: Int): @R? { return <- create R(x: x) }
+    access(all) fun mkOR2(_ x: Int): @R2? { return <- create R2(x: x) }
+    // renders a loaded resource; optional layers are not shown (how many there are depends on the static
+    // types the value passed through, not on what was stored: the stored type is observed by type(at:))
+    access(all) fun eat1(_ x: @AnyResource): String {
+        if x.isInstance(Type<@R>()) {
+            let y <- x as! @R
+            let s = "C.R(x: ".concat(y.x.toString()).concat(")")
+            destroy y
+            return s
         }
-        return "nil"
+        if x.isInstance(Type<@R2>()) {
+            let y <- x as! @R2
+            let s = "C.R2(x: ".concat(y.x.toString()).concat(")")
+            destroy y
+            return s
+        }
+        if x.isInstance(Type<@AnyResource?>()) {
+            let o <- x as! @AnyResource?
+            if let y <- o {
+                return C.eat1(<- y)
+            }
+            return "nil"
+        }
+        destroy x
+        return "?"
     }
 }
 `
 
-var storeTypeSyntax = map[string]string{
+var storeBaseSyntax = map[string]string{
 	"Int": "Int", "String": "String", "Bool": "Bool", "Integer": "Integer", "ArrInt": "[Int]", "ArrAny": "[AnyStruct]",
 	"S": "C.S", "S2": "C.S2", "I": "{C.I}", "AnyStruct": "AnyStruct",
 	"R": "@C.R", "R2": "@C.R2", "RI": "@{C.RI}", "AnyResource": "@AnyResource",
 }
-var storeStructTypes = []string{"Int", "String", "Bool", "Integer", "ArrInt", "ArrAny", "S", "S2", "I", "AnyStruct"}
-var storeResTypes = []string{"R", "R2", "RI", "AnyResource"}
+
+// Cadence syntax of a type token (base token followed by any number of `?`)
+func storeTypeSyntax(t string) string {
+	base := strings.TrimRight(t, "?")
+	syn, ok := storeBaseSyntax[base]
+	if !ok {
+		return "BAD_TYPE"
+	}
+	return syn + t[len(base):]
+}
+
+var storeStructTypes = []string{"Int", "String", "Bool", "Integer", "ArrInt", "ArrAny", "S", "S2", "I", "AnyStruct",
+	"Int?", "S?", "AnyStruct?", "Int??"}
+var storeResTypes = []string{"R", "R2", "RI", "AnyResource", "R?", "RI?", "AnyResource?"}
 var storeAllTypes = append(append([]string{}, storeStructTypes...), storeResTypes...)
 
-func storeIsRes(t string) bool { return t == "R" || t == "R2" || t == "RI" || t == "AnyResource" }
+// borrow<&T>: the checker rejects references to optional types
+var storeBorrowTypes = []string{"Int", "String", "Bool", "Integer", "ArrInt", "ArrAny", "S", "S2", "I", "AnyStruct",
+	"R", "R2", "RI", "AnyResource"}
 
-// static types under which a value of the given kind may be passed to save
-func storeSupers(kind byte) []string {
-	switch kind {
+func storeIsRes(t string) bool {
+	switch strings.TrimRight(t, "?") {
+	case "R", "R2", "RI", "AnyResource":
+		return true
+	}
+	return false
+}
+
+func storeIsOpt(t string) bool { return strings.HasSuffix(t, "?") }
+
+// static types under which a value may be passed to save
+func storeSupers(v string) []string {
+	switch v[0] {
 	case 'I':
 		return []string{"Int", "Integer", "AnyStruct"}
 	case 'S':
@@ -102,8 +137,33 @@ func storeSupers(kind byte) []string {
 		return []string{"R", "AnyResource"}
 	case 'q':
 		return []string{"R2", "RI", "AnyResource"}
+	case 'O':
+		// T? for every static type T of the wrapped value, and the top type of its kind without the `?`
+		inner := storeSupers(v[1:])
+		out := make([]string, 0, len(inner)+1)
+		for _, t := range inner {
+			out = append(out, t+"?")
+		}
+		return append(out, strings.TrimRight(inner[len(inner)-1], "?"))
+	case 'N':
+		// (not `@AnyResource`: the checker does not take `Never?` for a resource type)
+		return []string{"Int?", "S?", "AnyStruct", "AnyStruct?", "Int??", "R?", "AnyResource?"}
 	}
 	return nil
+}
+
+// the value token cut down to its kind (`O`s and the kind letter), enough for storeSupers
+func storeKindOf(v string) string { return v[:len(v)-len(strings.TrimLeft(v, "O"))+1] }
+
+// the dynamic type (token) of a value
+func storeDynType(v string) string {
+	switch v[0] {
+	case 'O':
+		return storeDynType(v[1:]) + "?"
+	case 'N':
+		return "Never?"
+	}
+	return storeSupers(v)[0]
 }
 
 func storeValExpr(v string) string {
@@ -132,6 +192,16 @@ func storeValExpr(v string) string {
 		return "C.mkR(" + body + ")"
 	case 'q':
 		return "C.mkR2(" + body + ")"
+	case 'O':
+		switch body[0] {
+		case 'r':
+			return "C.mkOR(" + body[1:] + ")"
+		case 'q':
+			return "C.mkOR2(" + body[1:] + ")"
+		}
+		return "(" + storeValExpr(body) + " as " + storeTypeSyntax(storeDynType(v)) + ")"
+	case 'N':
+		return "nil"
 	}
 	return "BAD"
 }
@@ -167,24 +237,24 @@ func storeTxSource(tx string) string {
 		case "sv":
 			t := f[4]
 			if storeIsRes(t) {
-				fmt.Fprintf(&b, "  let v%d: %s <- %s\n  %s.save(<-v%d, to: %s)\n", k, storeTypeSyntax[t], storeValExpr(f[3]), acct(), k, path())
+				fmt.Fprintf(&b, "  let v%d: %s <- %s\n  %s.save(<-v%d, to: %s)\n", k, storeTypeSyntax(t), storeValExpr(f[3]), acct(), k, path())
 			} else {
-				fmt.Fprintf(&b, "  let v%d: %s = %s\n  %s.save(v%d, to: %s)\n", k, storeTypeSyntax[t], storeValExpr(f[3]), acct(), k, path())
+				fmt.Fprintf(&b, "  let v%d: %s = %s\n  %s.save(v%d, to: %s)\n", k, storeTypeSyntax(t), storeValExpr(f[3]), acct(), k, path())
 			}
 			b.WriteString("  log(\"sv\")\n")
 		case "ld":
 			if storeIsRes(f[3]) {
-				fmt.Fprintf(&b, "  log(C.eat(<- %s.load<%s>(from: %s)))\n", acct(), storeTypeSyntax[f[3]], path())
+				fmt.Fprintf(&b, "  let l%d <- %s.load<%s>(from: %s)\n  if let x%d <- l%d { log(C.eat1(<- x%d)) } else { log(\"nil\") }\n", k, acct(), storeTypeSyntax(f[3]), path(), k, k, k)
 			} else {
-				fmt.Fprintf(&b, "  log(%s.load<%s>(from: %s))\n", acct(), storeTypeSyntax[f[3]], path())
+				fmt.Fprintf(&b, "  log(%s.load<%s>(from: %s))\n", acct(), storeTypeSyntax(f[3]), path())
 			}
 		case "cp":
-			fmt.Fprintf(&b, "  log(%s.copy<%s>(from: %s))\n", acct(), storeTypeSyntax[f[3]], path())
+			fmt.Fprintf(&b, "  log(%s.copy<%s>(from: %s))\n", acct(), storeTypeSyntax(f[3]), path())
 		case "bw":
-			ts := strings.TrimPrefix(storeTypeSyntax[f[3]], "@")
+			ts := strings.TrimPrefix(storeTypeSyntax(f[3]), "@")
 			fmt.Fprintf(&b, "  if let r = %s.borrow<&%s>(from: %s) { log(%s) } else { log(\"none\") }\n", acct(), ts, path(), storeBorrowRead(f[3]))
 		case "ck":
-			fmt.Fprintf(&b, "  log(%s.check<%s>(from: %s))\n", acct(), storeTypeSyntax[f[3]], path())
+			fmt.Fprintf(&b, "  log(%s.check<%s>(from: %s))\n", acct(), storeTypeSyntax(f[3]), path())
 		case "ty":
 			fmt.Fprintf(&b, "  log(%s.type(at: %s)?.identifier)\n", acct(), path())
 		case "ps":
@@ -281,7 +351,7 @@ func debugStore() bool { return os.Getenv("VERIF_DEBUG") != "" }
 
 type storeGenState struct {
 	r   *hx.Rng
-	occ map[[2]int]byte // generator's own guess of what is stored (only to bias choices)
+	occ map[[2]int]string // generator's own guess of what is stored (only to bias choices)
 	np  int             // number of paths per account (6; 40 in "wide" histories whose domain maps span several slabs)
 }
 
@@ -299,6 +369,19 @@ func storeRandVal(r *hx.Rng) string {
 			return "A" + strings.Join(xs, ".")
 		}
 		return "S" + strings.Repeat("abcdefghij", 120+r.Intn(100))
+	}
+	if r.Chance(22) {
+		// optional-typed stored values: some(v) (also of resources), some(some(v)), nil
+		switch r.Intn(8) {
+		case 0:
+			return "N"
+		case 1:
+			return "OO" + r.Pick([]string{"I", "s", "t"}) + r.Pick(ints[:6])
+		case 2, 3, 4:
+			return "O" + r.Pick([]string{"r", "q"}) + r.Pick(ints[:6])
+		default:
+			return "O" + r.Pick([]string{"I", "s", "t"}) + r.Pick(ints[:6])
+		}
 	}
 	switch r.Intn(9) {
 	case 0:
@@ -365,9 +448,9 @@ func (g *storeGenState) op() string {
 			a, p = 0, r.Intn(g.np)
 		}
 		v := storeRandVal(r)
-		t := r.Pick(storeSupers(v[0]))
+		t := r.Pick(storeSupers(v))
 		if _, o := g.occ[[2]int{a, p}]; !o {
-			g.occ[[2]int{a, p}] = v[0]
+			g.occ[[2]int{a, p}] = storeKindOf(v)
 		}
 		return fmt.Sprintf("sv,%d,%d,%s,%s", a, p, v, t)
 	case x < 42:
@@ -380,7 +463,7 @@ func (g *storeGenState) op() string {
 		return fmt.Sprintf("cp,%d,%d,%s", a, p, g.typeFor(a, p, storeStructTypes))
 	case x < 66:
 		a, p := g.key(true)
-		return fmt.Sprintf("bw,%d,%d,%s", a, p, g.typeFor(a, p, storeAllTypes))
+		return fmt.Sprintf("bw,%d,%d,%s", a, p, g.typeFor(a, p, storeBorrowTypes))
 	case x < 78:
 		a, p := g.key(true)
 		return fmt.Sprintf("ck,%d,%d,%s", a, p, r.Pick(storeAllTypes))
@@ -423,16 +506,28 @@ func genStore(c *hx.Ctx) {
 		}
 	}
 	// exhaustive: every value kind against every type argument, each operation in its own transaction
-	vals := []string{"I5", "Sab", "B1", "A1.2", "Y1.2", "s3", "t4", "r6", "q8"}
+	// (borrow, which takes non-optional types only, in a history of its own per value kind;
+	// AnyResource last there: see known finding borrow-stored-nil-as-anyresource)
+	vals := []string{"I5", "Sab", "B1", "A1.2", "Y1.2", "s3", "t4", "r6", "q8", "OI5", "Os3", "Ot4", "Or6", "Oq8", "OOI5", "N"}
 	for _, v := range vals {
+		sup := storeSupers(v)
 		for _, t := range storeAllTypes {
-			sup := storeSupers(v[0])
 			txs := []string{fmt.Sprintf("sv,1,2,%s,%s", v, sup[len(t)%len(sup)])}
 			txs = append(txs, "ck,1,2,"+t+";ty,1,2")
 			if !storeIsRes(t) {
 				txs = append(txs, "cp,1,2,"+t)
 			}
-			txs = append(txs, "bw,1,2,"+t, "ps,1;ld,1,2,"+t+";ps,1", "ty,1,2;fe,1")
+			txs = append(txs, "ps,1;ld,1,2,"+t+";ps,1", "ty,1,2;fe,1")
+			emit(strings.Join(txs, "|"))
+		}
+		for i, s := range sup {
+			txs := []string{fmt.Sprintf("sv,1,2,%s,%s", v, s)}
+			if i == 0 {
+				for _, t := range storeBorrowTypes {
+					txs = append(txs, "bw,1,2,"+t)
+				}
+			}
+			txs = append(txs, "ty,1,2;fe,1")
 			emit(strings.Join(txs, "|"))
 		}
 	}
@@ -453,7 +548,7 @@ func genStore(c *hx.Ctx) {
 		emit(strings.Join(many[:150], ";") + "|" + strings.Join(many[150:], ";") + "|ps,2|ld,2,17,Int;ps,2|ps,2") // (no forEachStored here: 300 callbacks exceed the computation limit)
 	}
 	for i := 0; i < c.N; i++ {
-		g := &storeGenState{r: r, occ: map[[2]int]byte{}, np: 6}
+		g := &storeGenState{r: r, occ: map[[2]int]string{}, np: 6}
 		ntx := 2 + r.Intn(8)
 		wide := r.Chance(8)
 		if wide {
